@@ -812,6 +812,43 @@ func (x *Run) enterLoopHeader(fr *Frame, from, to *ssa.BasicBlock, st *State, lp
 			fr.names[phi.Comment] = nv
 		}
 	}
+	// slices are values (A-SLICE): an element store or a buffer-filling call in
+	// the body re-binds the SSA value naming the slice, so the names it may
+	// re-bind start the arbitrary iteration with unknown contents
+	if !fr.inPure() && !fr.inSpec() {
+		for b := range lp.blocks {
+			for _, i2 := range b.Instrs {
+				switch i2 := i2.(type) {
+				case *ssa.Store:
+					if ia, ok := i2.Addr.(*ssa.IndexAddr); ok {
+						x.havocSliceRoot(fr, st, ia.X)
+					}
+				case ssa.CallInstruction:
+					if _, isB := i2.Common().Value.(*ssa.Builtin); isB {
+						if i2.Common().Value.Name() == "copy" && len(i2.Common().Args) > 0 {
+							x.havocSliceRoot(fr, st, i2.Common().Args[0])
+						}
+						continue
+					}
+					nm := ""
+					if i2.Common().IsInvoke() {
+						nm = i2.Common().Method.Name()
+					} else if sf := i2.Common().StaticCallee(); sf != nil {
+						nm = sf.Name()
+						if x.spec.pureExt(sf) || x.spec.keepsArgs[sf.String()] || len(sf.Blocks) > 0 && x.spec.contractFor(sf.String()) == nil {
+							continue // executed in line: its stores re-bind its own names
+						}
+					}
+					if strings.HasPrefix(nm, "Write") || strings.HasPrefix(nm, "write") {
+						continue
+					}
+					for _, a := range i2.Common().Args {
+						x.havocSliceRoot(fr, st, a)
+					}
+				}
+			}
+		}
+	}
 	for c := range ms.cells {
 		if cur, ok := st.cells[c]; ok {
 			nv := x.freshVal(st, "loop_"+c.name, c.ty)
@@ -1094,6 +1131,14 @@ func (x *Run) onlyClosedEverSignals(ch Val, t types.Type) bool {
 		return false
 	}
 	if x.sendable["field:"+ch.Origin] || x.sendable[typeKey(ct.Elem())] {
+		return false
+	}
+	// channels owned by library objects (time.Ticker.C, time.Timer.C, ...) are
+	// sent on by library code the scan does not see
+	x.mu.Lock()
+	lib := x.libFieldArr[ch.Origin]
+	x.mu.Unlock()
+	if lib {
 		return false
 	}
 	x.mu.Lock()
